@@ -143,8 +143,17 @@ def full_like(a, fill_value, dtype=None):
     return full(a.shape, fill_value, dtype or a.dtype)
 
 
-def copy(a, **kw):
-    return asarray(a).copy()
+def copy(a, order="K", **kw):
+    return asarray(a).copy(order=order)
+
+
+def asfortranarray(a, dtype=None):
+    a = asarray(a, dtype)
+    return a if a.ndim < 2 else a.copy(order="F")
+
+
+def ascontiguousarray(a, dtype=None):
+    return asarray(a, dtype).copy(order="C")
 
 
 def arange(start, stop=None, step=1, dtype=None):
